@@ -117,8 +117,14 @@ def check_data_entry(ix, rep, f, kind, rule='R-TRUTHY'):
                 for t in ast.walk(n.target):
                     if isinstance(t, ast.Name):
                         pairs.append((t.id, n.iter))
+                # `for name, value in dataset:` -- the first component of a (name, value) pair is the name
+                if isinstance(n.target, ast.Tuple) and len(n.target.elts) == 2 and isinstance(n.target.elts[0], ast.Name) \
+                        and any(isinstance(x, ast.Name) and x.id in tainted for x in ast.walk(n.iter)):
+                    names_only.add(n.target.elts[0].id)
             for name, val in pairs:
                 roots = {x.id for x in ast.walk(val) if isinstance(x, ast.Name)}
+                if name in names_only:
+                    continue
                 if roots & tainted and name not in tainted:
                     # the name component of a (name, value) pair is a string
                     if isinstance(val, ast.Subscript) and isinstance(val.slice, ast.Constant) and val.slice.value == 0 and isinstance(n, ast.Assign):
